@@ -1491,6 +1491,30 @@ def check_schmidt_rank(inp):
             fails.append(f'{model} L={L}: bond dimension {mpo.bond_dims[cut]} at cut {cut} != operator Schmidt rank {rank}')
     return fails
 
+
+@check('molecular_gauge')
+def check_molecular_gauge(inp):
+    import pytenet as ptn
+    L, i = inp['L'], inp['i']
+    u2 = np.array(inp['u'], dtype=complex)
+    tk = arr(inp['tkin']); vi = arr(inp['vint'])
+    u = np.identity(L, dtype=complex); u[i:i + 2, i:i + 2] = u2
+    try:
+        tk_r = np.einsum(u, (2, 0), u.conj(), (3, 1), tk, (2, 3), (0, 1))
+        vi_r = np.einsum(u, (4, 0), u, (5, 1), u.conj(), (6, 2), u.conj(), (7, 3), vi, (4, 5, 6, 7), (0, 1, 2, 3))
+        h = ptn.molecular_hamiltonian_mpo(tk, vi, optimize=False)
+        h_r = ptn.molecular_hamiltonian_mpo(tk_r, vi_r, optimize=False)
+        h.A[i] = np.copy(h_r.A[i]); h.A[i + 1] = np.copy(h_r.A[i + 1])
+        v_l, v_r = ptn.molecular_hamiltonian_orbital_gauge_transform(h, u2, i)
+        h.A[i] = np.einsum(v_l, (2, 4), h.A[i], (0, 1, 4, 3), (0, 1, 2, 3))
+        h.A[i + 1] = np.einsum(v_r, (3, 4), h.A[i + 1], (0, 1, 2, 4), (0, 1, 2, 3))
+        M, Mr = h.as_matrix(), h_r.as_matrix()
+    except Exception as e:
+        return [f'gauge transform raised {type(e).__name__}: {e}']
+    if not close(M, Mr, float(np.max(np.abs(Mr)))):
+        return ['gauge-transformed MPO differs from the MPO of the rotated coefficients']
+    return []
+
 # -------------------------------------------------------------------------------------------
 
 def main():
